@@ -27,6 +27,7 @@ fn run_many(args: &Args, rep: &mut Report, engine: &str, n: u64, jobs: usize, f:
         let mut finds = Vec::new();
         let mut i = wk as u64;
         while i < n {
+            let _case = vh_common::CaseGuard::new(format!("{} case {}", eng, i));
             let mut c = f(i);
             // verdicts that rest on a generous wall-clock watchdog are only believed if they repeat
             if c.violations.first().map(|v| TIMING_ORACLES.contains(&v.oracle)).unwrap_or(false) {
@@ -69,6 +70,7 @@ fn run_many(args: &Args, rep: &mut Report, engine: &str, n: u64, jobs: usize, f:
 fn main() {
     vh_common::install_panic_hook();
     let args = Args::parse();
+    vh_common::install_hang_watchdog(&args.prop);
     if args.prop == "replay" {
         let path = args.replay.clone().expect("replay file");
         let txt = std::fs::read_to_string(&path).expect("read");
